@@ -22,6 +22,7 @@ type ixCtx struct {
 	pure     map[*ssa.Function]int8
 	predSumm map[*ssa.Function]map[string]int // predicate true => exprKey(with P<i>) -> min len
 	inProg   map[*ssa.Function]bool
+	retLenMemo map[*ssa.Function]retLenSumm
 }
 
 // isPure: no stores, map updates, or calls to impure functions (depth-bounded).
@@ -472,6 +473,33 @@ func (c *ixCtx) minLen(v ssa.Value, facts map[string]int, params map[ssa.Value]s
 		if cal := x.Call.StaticCallee(); cal != nil && cal.String() == "strings.Split" {
 			up(1)
 		}
+		if cal := x.Call.StaticCallee(); cal != nil && cal.Pkg != nil && inModule(cal.Pkg.Pkg.Path()) {
+			if rl := c.retLen(cal, 0); rl.ok {
+				okSub := true
+				k := placeholderRe.ReplaceAllStringFunc(rl.tmpl, func(m string) string {
+					var i int
+					fmt.Sscanf(m, "§%d§", &i)
+					if i >= len(x.Call.Args) {
+						okSub = false
+						return m
+					}
+					return c.exprKey(x.Call.Args[i], params, 1)
+				})
+				if okSub {
+					if n, has := facts[k]; has && n+rl.delta > 0 {
+						up(n + rl.delta)
+					}
+					// a plain parameter template: structural bound of the argument
+					for i, a := range x.Call.Args {
+						if rl.tmpl == fmt.Sprintf("§%d§", i) {
+							if n := c.minLen(a, facts, params, seen, mono, depth+1); n < ixInf && n+rl.delta > 0 {
+								up(n + rl.delta)
+							}
+						}
+					}
+				}
+			}
+		}
 		if cal := x.Call.StaticCallee(); cal != nil && cal.Pkg != nil && inModule(cal.Pkg.Pkg.Path()) && !seen[x] && depth < 4 {
 			// structural bound of what a module function returns (no facts of the caller apply)
 			seen[x] = true
@@ -497,6 +525,22 @@ func (c *ixCtx) minLen(v ssa.Value, facts map[string]int, params map[ssa.Value]s
 				up(int(at.Len()))
 			}
 		}
+		if x.Low == nil && x.High != nil {
+			if bo, ok := x.High.(*ssa.BinOp); ok && bo.Op == token.SUB {
+				if k, ok := bo.Y.(*ssa.Const); ok {
+					if call, ok := bo.X.(*ssa.Call); ok {
+						if bi, ok := call.Call.Value.(*ssa.Builtin); ok && bi.Name() == "len" && c.exprKey(call.Call.Args[0], params, 0) == c.exprKey(x.X, params, 0) {
+							if cv := constVal(k); cv.k == kInt {
+								n := c.minLen(x.X, facts, params, seen, false, depth+1)
+								if n < ixInf && n-int(cv.i) > best {
+									up(n - int(cv.i))
+								}
+							}
+						}
+					}
+				}
+			}
+		}
 		if x.High == nil && x.Low != nil {
 			if bo, ok := x.Low.(*ssa.BinOp); ok && bo.Op == token.SUB {
 				if k, ok := bo.Y.(*ssa.Const); ok {
@@ -516,6 +560,13 @@ func (c *ixCtx) minLen(v ssa.Value, facts map[string]int, params map[ssa.Value]s
 						up(n - int(cv.i))
 					}
 				}
+			}
+		}
+	case *ssa.Convert:
+		// string(rune) has at least one byte
+		if b, ok := x.Type().Underlying().(*types.Basic); ok && b.Kind() == types.String {
+			if xb, ok := x.X.Type().Underlying().(*types.Basic); ok && xb.Info()&types.IsInteger != 0 {
+				up(1)
 			}
 		}
 	case *ssa.MakeSlice:
@@ -552,6 +603,123 @@ func (c *ixCtx) minLen(v ssa.Value, facts map[string]int, params map[ssa.Value]s
 		}
 	}
 	return best
+}
+
+// retLen: "len(result) ≥ len(template) + delta" summaries of module functions whose every
+// return is a constant-offset slice of an expression over the parameters
+// (RemoveSuffix: (§0§, -1)); template uses §i§ placeholders.
+type retLenSumm struct {
+	tmpl  string
+	delta int
+	ok    bool
+}
+
+func (c *ixCtx) retLen(fn *ssa.Function, depth int) retLenSumm {
+	if c.retLenMemo == nil {
+		c.retLenMemo = map[*ssa.Function]retLenSumm{}
+	}
+	if s, ok := c.retLenMemo[fn]; ok {
+		return s
+	}
+	c.retLenMemo[fn] = retLenSumm{}
+	if fn == nil || len(fn.Blocks) == 0 || depth > 3 || fn.Signature.Results().Len() != 1 {
+		return retLenSumm{}
+	}
+	params := map[ssa.Value]string{}
+	for i, p := range fn.Params {
+		params[p] = fmt.Sprintf("§%d§", i)
+	}
+	cint := func(v ssa.Value) (int, bool) {
+		if k, ok := v.(*ssa.Const); ok {
+			if cv := constVal(k); cv.k == kInt {
+				return int(cv.i), true
+			}
+		}
+		return 0, false
+	}
+	var one func(v ssa.Value, d int) retLenSumm
+	one = func(v ssa.Value, d int) retLenSumm {
+		if d > 4 {
+			return retLenSumm{}
+		}
+		switch x := v.(type) {
+		case *ssa.Slice:
+			base := c.exprKey(x.X, params, 0)
+			if !strings.Contains(base, "§") || strings.Contains(base, "v:") {
+				return retLenSumm{}
+			}
+			delta := 0
+			if x.Low != nil {
+				k, ok := cint(x.Low)
+				if !ok {
+					return retLenSumm{}
+				}
+				delta -= k
+			}
+			if x.High != nil {
+				bo, ok := x.High.(*ssa.BinOp)
+				if !ok || bo.Op != token.SUB {
+					return retLenSumm{}
+				}
+				k, ok := cint(bo.Y)
+				if !ok {
+					return retLenSumm{}
+				}
+				call, ok := bo.X.(*ssa.Call)
+				if !ok {
+					return retLenSumm{}
+				}
+				if bi, ok := call.Call.Value.(*ssa.Builtin); !ok || bi.Name() != "len" || c.exprKey(call.Call.Args[0], params, 0) != base {
+					return retLenSumm{}
+				}
+				delta -= k
+			}
+			return retLenSumm{base, delta, true}
+		case *ssa.Call:
+			cal := x.Call.StaticCallee()
+			if cal == nil || cal.Pkg == nil || !inModule(cal.Pkg.Pkg.Path()) {
+				return retLenSumm{}
+			}
+			inner := c.retLen(cal, depth+1)
+			if !inner.ok {
+				return retLenSumm{}
+			}
+			okSub := true
+			t := placeholderRe.ReplaceAllStringFunc(inner.tmpl, func(m string) string {
+				var i int
+				fmt.Sscanf(m, "§%d§", &i)
+				if i >= len(x.Call.Args) {
+					okSub = false
+					return m
+				}
+				return c.exprKey(x.Call.Args[i], params, 1)
+			})
+			if !okSub || strings.Contains(t, "v:") || strings.Contains(t, "a:") {
+				return retLenSumm{}
+			}
+			return retLenSumm{t, inner.delta, true}
+		}
+		return retLenSumm{}
+	}
+	var res retLenSumm
+	n := 0
+	for _, b := range fn.Blocks {
+		ret, ok := b.Instrs[len(b.Instrs)-1].(*ssa.Return)
+		if !ok {
+			continue
+		}
+		s := one(ret.Results[0], 0)
+		if !s.ok {
+			return retLenSumm{}
+		}
+		if n > 0 && (s.tmpl != res.tmpl || s.delta != res.delta) {
+			return retLenSumm{}
+		}
+		res = s
+		n++
+	}
+	c.retLenMemo[fn] = res
+	return res
 }
 
 type ixSite struct {
@@ -650,6 +818,14 @@ func (c *ixCtx) sitesOf(fn *ssa.Function) (out []ixSite) {
 						out = append(out, ixSite{ins: ins, base: x.X, need: k, desc: fmt.Sprintf("index %s[len-%d]", name(x.X), k)})
 					}
 				}
+			case *ssa.Call:
+				// text handed to the identifier factory must be non-empty: the evaluator indexes
+				// the first character of every identifier-kind value it is asked to evaluate
+				if cal := x.Call.StaticCallee(); cal != nil && c.isIdentifierFactory(cal) && len(x.Call.Args) == 1 {
+					if _, isConst := x.Call.Args[0].(*ssa.Const); !isConst && pkgShort(fn) != "base" && pkgShort(fn) != "builtin" {
+						out = append(out, ixSite{ins: ins, base: x.Call.Args[0], need: 1, desc: "nonempty " + cal.Name() + "(" + name(x.Call.Args[0]) + ")"})
+					}
+				}
 			case *ssa.Slice:
 				bt := x.X.Type().Underlying()
 				if pt, ok := bt.(*types.Pointer); ok {
@@ -685,6 +861,33 @@ func (c *ixCtx) sitesOf(fn *ssa.Function) (out []ixSite) {
 		}
 	}
 	return out
+}
+
+// isIdentifierFactory: function of base with one string parameter that builds a T of the
+// identifier kind (the kind constant the lexer stores for identifiers) from it.
+func (c *ixCtx) isIdentifierFactory(fn *ssa.Function) bool {
+	if fn == nil || pkgShort(fn) != "base" || fn.Signature.Params().Len() != 1 || fn.Signature.Results().Len() != 1 || !isTPtr(fn.Signature.Results().At(0).Type()) || len(fn.Blocks) != 1 {
+		return false
+	}
+	if b, ok := fn.Signature.Params().At(0).Type().Underlying().(*types.Basic); !ok || b.Kind() != types.String {
+		return false
+	}
+	for _, ins := range fn.Blocks[0].Instrs {
+		call, ok := ins.(*ssa.Call)
+		if !ok || len(call.Call.Args) != 3 {
+			continue
+		}
+		k, ok := call.Call.Args[1].(*ssa.Const)
+		if !ok {
+			continue
+		}
+		if cv := constVal(k); cv.k == kInt && cv.i == 258 { // base.UNKNOWN: the identifier kind
+			if mi, ok := call.Call.Args[2].(*ssa.MakeInterface); ok && mi.X == ssa.Value(fn.Params[0]) {
+				return true
+			}
+		}
+	}
+	return false
 }
 
 func isRangeIndexOf(idx ssa.Value, base ssa.Value) bool {
@@ -741,6 +944,10 @@ var ixReviewed = map[string]string{
 	"IX|eval.(*Case).Evaluation|slice resultTs[1:]":                                            "resultTs starts with one element and every re-slice [1:] is immediately followed by an append, so its length never drops below 1 at this statement",
 	"IX|eval.(*Evaluator).handleIdentifier|index id[0]":                                        "id is the text of an identifier-kind token or a non-empty derivation of one (splat/key stripping require len > 1); empty strings only occur in STRING-kind tokens, which Eval handles before this function",
 	"IX|eval.(*Hash).Evaluation|slice nextT.ToString()[:len(nextT.ToString()) - 1]":            "nextT is a token just delivered by Parser.Read with kind UNKNOWN: lexer identifier text, non-empty",
+	"IX|eval.(*Evaluator).handleConstEvaluation|nonempty base.MakeIdentifier(t.ToString())": "t has the CONST kind: such values are built by Parser.Read from lexer identifier text that passed IsConstIdentifier (len ≥ 2)",
+	"IX|eval.nameSpaceEvaluation|nonempty base.MakeIdentifier(class)": "the last component of `A::` is empty, but the shipped configuration declares the class \"\" (object.json), so IsClassIdentifier answers from the registry before indexing the text — configuration-gated, outside C01's quantifier (source files under the shipped configuration)",
+	"IX|eval/method_evaluator.(*objectAttrReaderStrategy).evaluate|nonempty base.MakeIdentifier(identifier)": "the argument passed IsSymbolType(): SYMBOL-kind values are built from identifier text that passed IsSymbolIdentifier (len > 1 and a leading colon), so trimming the colon leaves at least one character",
+	"IX|parser.(*Parser).Read|nonempty base.MakeIdentifier(id.GetName())": "the name is the lexer's identifier text: every lexer path that stores the identifier kind writes at least the first rune into it",
 	"IX|eval/method_evaluator.prioritizeDefineArgNames|slice name[len(name) - 1:]":            "define-arg names are identifier token texts or generated ids, never empty (the length test that follows is redundant)",
 }
 
@@ -805,6 +1012,12 @@ func engineIX(w *World, tier string) *EngineResult {
 				}
 				continue
 			}
+			if have < s.need {
+				// the same requirement expressed on the text the value is cut from
+				if k, n := c.normaliseReq(s.base, s.need, nil, 0); facts[k] >= n {
+					have = s.need
+				}
+			}
 			if have >= s.need {
 				nGuarded++
 				r.holds("IX", fnKey(fn), s.desc, fmt.Sprintf("len ≥ %d established on every path to the access", s.need), pos)
@@ -868,12 +1081,49 @@ func arrayIndexGuarded(c *ixCtx, s ixSite) bool {
 // corresponding expression at the call site — directly, or (recursively, depth ≤ 3)
 // because the expression is again rooted in the caller's parameters and all of *its*
 // callers establish it.
+// normaliseReq rewrites "len(base) ≥ need" into a requirement on the text it is cut from:
+// x[k:] ≥ n ⇒ x ≥ n+k; f(args) with summary len(f) ≥ len(t)+d ⇒ t ≥ n-d.
+func (c *ixCtx) normaliseReq(base ssa.Value, need int, params map[ssa.Value]string, depth int) (string, int) {
+	if depth < 4 {
+		switch x := base.(type) {
+		case *ssa.Slice:
+			if x.High == nil && x.Low != nil {
+				if k, ok := x.Low.(*ssa.Const); ok {
+					if cv := constVal(k); cv.k == kInt {
+						return c.normaliseReq(x.X, need+int(cv.i), params, depth+1)
+					}
+				}
+			}
+		case *ssa.Call:
+			if cal := x.Call.StaticCallee(); cal != nil && cal.Pkg != nil && inModule(cal.Pkg.Pkg.Path()) {
+				if rl := c.retLen(cal, 0); rl.ok {
+					okSub := true
+					t := placeholderRe.ReplaceAllStringFunc(rl.tmpl, func(m string) string {
+						var i int
+						fmt.Sscanf(m, "§%d§", &i)
+						if i >= len(x.Call.Args) {
+							okSub = false
+							return m
+						}
+						return c.exprKey(x.Call.Args[i], params, 1)
+					})
+					if okSub {
+						return t, need - rl.delta
+					}
+				}
+			}
+		}
+	}
+	return c.exprKey(base, params, 0), need
+}
+
 func (c *ixCtx) callerGuards(node interface{}, fn *ssa.Function, s ixSite) (bool, string) {
 	params := map[ssa.Value]string{}
 	for i, p := range fn.Params {
 		params[p] = fmt.Sprintf("§%d§", i)
 	}
-	tmpl := c.exprKey(s.base, params, 0)
+	tmpl, need := c.normaliseReq(s.base, s.need, params, 0)
+	s.need = need
 	if !strings.Contains(tmpl, "§") || strings.Contains(tmpl, "v:") || strings.Contains(tmpl, "a:") {
 		return false, ""
 	}
